@@ -38,7 +38,7 @@ from myst_parser.parsers.directives import parse_directive_text  # noqa: E402
 
 VOC = [
     ":class: x", ":name: n", ":bogus: 1", ":class:", "  :name: m", "---", "-----", "class: x", "bogus: 1",
-    "", "text", "  indented", ":notopt", ":name: n # c", ":@1: 1", ":@1: x",
+    "", "text", "  indented", ":notopt", ":name: n # c", ":@1: 1", ":@1: x", ":class: a\u00a0b", ":name: n\u3000m",
 ]
 FIRST = ["", "x", "x y", "x y z"]
 ADDL = [None, {"class": "y"}, {"zzz": "1"}]
